@@ -80,6 +80,13 @@ def rich_doc(draw):
         # ... and two component enums that share a title (the class is named after the title): both are built in the same phase
         ir["schemas"].append(["ZzStateA", {"k": "enum", "base": "str", "values": list(vals), "null": False, "title": "Zz Shared State"}])
         ir["schemas"].append(["ZzStateB", {"k": "enum", "base": "str", "values": list(reversed(vals)), "null": False, "title": "Zz Shared State"}])
+    # a top-level union (or array of it) with an inline object member listed before a reference, declared after the referenced
+    # component: permutations turn the reference into a forward one
+    plain = [n_ for n_, s_ in ir["schemas"] if s_["k"] == "object"]
+    if plain and draw(st.integers(0, 2)) == 0 and "ZzEither" not in comps:
+        un = {"k": "union", "how": draw(st.sampled_from(["oneOf", "anyOf"])), "_component_union": True,
+              "members": [{"k": "object", "props": [["inlineNote", {"k": "str"}, True]], "addl": None, "allOf": []}, {"k": "ref", "name": draw(st.sampled_from(plain))}]}
+        ir["schemas"].append(["ZzEither", un if draw(st.booleans()) else {"k": "array", "items": un}])
     # two children of one parent, one of which declares a near-duplicate of an inherited property name (the generator renames to keep
     # both) while the other only promotes the inherited property: what the first does to the shared parent must not show in the second
     if draw(st.integers(0, 3)) == 0 and "ZzParent" not in comps:
